@@ -16,68 +16,55 @@ use crate::scenario::{ReqKind, ALL_REQ_KINDS};
 
 // =============================================================================== C16
 
+/// One include statement as written.
 #[derive(Clone, Debug, PartialEq, Eq, Serialize, Deserialize)]
-pub enum Target {
-    /// an existing file of the graph (index)
-    File(usize),
-    /// no such file anywhere
-    Missing(u32),
-    /// exists but cannot be read
-    Unreadable(u32),
-    /// found only through INCLUDE_DIR (index into `inc_files`)
-    IncDir(usize),
-}
-
-#[derive(Clone, Debug, PartialEq, Eq, Serialize, Deserialize)]
-pub struct Edge {
-    pub target: Target,
-    /// the include statement sits inside `let ... in { }` instead of at top level
+pub struct GInc {
+    /// the string in the include statement ("f1.td", "sub/f0.td", "missing3.td", ...)
+    pub name: String,
+    /// the statement sits inside `let ... in { }` instead of at top level
     pub nested: bool,
 }
 
 #[derive(Clone, Debug, PartialEq, Eq, Serialize, Deserialize)]
+pub struct GFile {
+    pub path: String,
+    pub includes: Vec<GInc>,
+}
+
+/// An include graph as a state of the disk: readable files in several directories (the same
+/// base name may exist in more than one), paths that exist but cannot be read, and the
+/// INCLUDE_DIR search directory.
+#[derive(Clone, Debug, PartialEq, Eq, Serialize, Deserialize)]
 pub struct Graph {
-    /// edges[i]: include statements of file i, in source order
-    pub edges: Vec<Vec<Edge>>,
-    /// files that live in the INCLUDE_DIR directory (leafs)
-    pub inc_files: usize,
-    pub include_dir_set: bool,
+    pub files: Vec<GFile>,
+    pub unreadable: Vec<String>,
+    pub include_dir: Option<String>,
     pub root: usize,
 }
 
-fn gpath(i: usize) -> String {
-    format!("/w/f{i}.td")
-}
-fn ipath(i: usize) -> String {
-    format!("/w/inc/g{i}.td")
+fn parent_of(path: &str) -> &str {
+    match path.rfind('/') {
+        Some(i) => &path[..i],
+        None => "",
+    }
 }
 
 impl Graph {
-    fn include_name(&self, t: &Target) -> String {
-        match t {
-            Target::File(i) => format!("f{i}.td"),
-            Target::Missing(n) => format!("missing{n}.td"),
-            Target::Unreadable(n) => format!("unreadable{n}.td"),
-            Target::IncDir(i) => format!("g{i}.td"),
-        }
-    }
-
-    /// (text, byte range of each include statement, byte range of its path literal)
+    /// (text, per include statement: statement start, statement end, literal start, literal end)
     pub fn render(&self, i: usize) -> (String, Vec<(usize, usize, usize, usize)>) {
         let mut s = String::new();
         let mut spans = Vec::new();
-        for e in &self.edges[i] {
-            let name = self.include_name(&e.target);
-            if e.nested {
+        for inc in &self.files[i].includes {
+            if inc.nested {
                 s.push_str("let z = 1 in { ");
             }
             let st = s.len();
             s.push_str("include ");
             let lit = s.len();
-            s.push_str(&format!("\"{name}\""));
+            s.push_str(&format!("\"{}\"", inc.name));
             let en = s.len();
             spans.push((st, en, lit, en));
-            if e.nested {
+            if inc.nested {
                 s.push_str(" }");
             }
             s.push('\n');
@@ -86,39 +73,38 @@ impl Graph {
         (s, spans)
     }
 
-    pub fn files(&self) -> BTreeMap<PathBuf, String> {
-        let mut m = BTreeMap::new();
-        for i in 0..self.edges.len() {
-            m.insert(PathBuf::from(gpath(i)), self.render(i).0);
-        }
-        for i in 0..self.inc_files {
-            m.insert(PathBuf::from(ipath(i)), format!("class G_{i};\n"));
-        }
-        m
+    pub fn disk(&self) -> BTreeMap<PathBuf, String> {
+        (0..self.files.len()).map(|i| (PathBuf::from(&self.files[i].path), self.render(i).0)).collect()
     }
 
-    /// Independent model: where an include statement resolves to.
-    fn resolve(&self, t: &Target) -> Option<String> {
-        match t {
-            Target::File(i) => Some(gpath(*i)),
-            Target::IncDir(i) if self.include_dir_set => Some(ipath(*i)),
-            _ => None,
+    fn index_of(&self, path: &str) -> Option<usize> {
+        self.files.iter().position(|f| f.path == path)
+    }
+
+    /// Independent model of include resolution: the includer's directory first, then
+    /// INCLUDE_DIR; the first candidate that is a readable file wins.
+    pub fn resolve(&self, includer: usize, name: &str) -> Option<usize> {
+        let first = format!("{}/{}", parent_of(&self.files[includer].path), name);
+        if let Some(i) = self.index_of(&first) {
+            return Some(i);
         }
+        if let Some(d) = &self.include_dir {
+            return self.index_of(&format!("{d}/{name}"));
+        }
+        None
     }
 
     /// Independent model: reachable set by BFS with a visited set over resolvable edges.
-    pub fn reachable(&self) -> BTreeSet<String> {
+    pub fn reachable(&self) -> BTreeSet<usize> {
         let mut seen = BTreeSet::new();
         let mut q = VecDeque::new();
-        seen.insert(gpath(self.root));
+        seen.insert(self.root);
         q.push_back(self.root);
         while let Some(i) = q.pop_front() {
-            for e in &self.edges[i] {
-                if let Some(p) = self.resolve(&e.target) {
-                    if seen.insert(p) {
-                        if let Target::File(j) = e.target {
-                            q.push_back(j);
-                        }
+            for inc in &self.files[i].includes {
+                if let Some(j) = self.resolve(i, &inc.name) {
+                    if seen.insert(j) {
+                        q.push_back(j);
                     }
                 }
             }
@@ -127,7 +113,6 @@ impl Graph {
     }
 
     pub fn has_cycle(&self) -> bool {
-        // DFS from root
         fn dfs(g: &Graph, i: usize, stack: &mut Vec<usize>, done: &mut BTreeSet<usize>) -> bool {
             if stack.contains(&i) {
                 return true;
@@ -136,8 +121,8 @@ impl Graph {
                 return false;
             }
             stack.push(i);
-            for e in &g.edges[i] {
-                if let Target::File(j) = e.target {
+            for inc in &g.files[i].includes {
+                if let Some(j) = g.resolve(i, &inc.name) {
                     if dfs(g, j, stack, done) {
                         return true;
                     }
@@ -150,16 +135,12 @@ impl Graph {
         dfs(self, self.root, &mut Vec::new(), &mut BTreeSet::new())
     }
 
-    /// some file is reachable along two different paths (or included twice)
+    /// some file is reached along two different include statements
     pub fn has_diamond(&self) -> bool {
         let mut indeg: BTreeMap<usize, usize> = BTreeMap::new();
-        let reach = self.reachable();
-        for i in 0..self.edges.len() {
-            if !reach.contains(&gpath(i)) {
-                continue;
-            }
-            for e in &self.edges[i] {
-                if let Target::File(j) = e.target {
+        for i in self.reachable() {
+            for inc in &self.files[i].includes {
+                if let Some(j) = self.resolve(i, &inc.name) {
                     *indeg.entry(j).or_default() += 1;
                 }
             }
@@ -167,31 +148,36 @@ impl Graph {
         indeg.values().any(|d| *d > 1)
     }
 
+    /// the same written name resolves to different files from different includers
+    pub fn has_name_collision(&self) -> bool {
+        let mut by_name: BTreeMap<&str, BTreeSet<Option<usize>>> = BTreeMap::new();
+        for i in self.reachable() {
+            for inc in &self.files[i].includes {
+                by_name.entry(inc.name.as_str()).or_default().insert(self.resolve(i, &inc.name));
+            }
+        }
+        by_name.values().any(|s| s.len() > 1)
+    }
+
     pub fn shape_hash(&self) -> u64 {
         let mut h = StableHasher::new();
         h.u64(self.root as u64);
-        h.u64(self.include_dir_set as u64);
-        for es in &self.edges {
-            h.u64(0xEE);
-            for e in es {
-                h.u64(e.nested as u64);
-                match &e.target {
-                    Target::File(i) => {
-                        h.u64(1);
-                        h.u64(*i as u64)
-                    }
-                    Target::Missing(_) => h.u64(2),
-                    Target::Unreadable(_) => h.u64(3),
-                    Target::IncDir(i) => {
-                        h.u64(4);
-                        h.u64(*i as u64)
-                    }
-                }
+        h.u64(self.include_dir.is_some() as u64);
+        for f in &self.files {
+            h.str(&f.path);
+            for inc in &f.includes {
+                h.u64(inc.nested as u64);
+                // numbered missing/unreadable names are one shape
+                let n: String = inc.name.chars().filter(|c| !c.is_ascii_digit() || inc.name.starts_with('f') || inc.name.contains("/f")).collect();
+                h.str(&n);
             }
         }
+        h.u64(self.unreadable.len() as u64);
         h.finish()
     }
 }
+
+const DIRS: [&str; 3] = ["/w", "/w/sub", "/w/inc"];
 
 pub fn gen_graph(rng: &mut Rng, allow_nested: bool) -> Graph {
     let n = match rng.below(10) {
@@ -201,32 +187,48 @@ pub fn gen_graph(rng: &mut Rng, allow_nested: bool) -> Graph {
         7 | 8 => 4,
         _ => rng.range(5, 6),
     };
-    let inc_files = rng.below(3);
-    let include_dir_set = rng.chance(1, 2);
-    let mut missing = 0u32;
+    // files: the root in /w, the others anywhere; base names f0..f3 repeat across directories
+    let mut files: Vec<GFile> = vec![GFile { path: "/w/f0.td".into(), includes: vec![] }];
+    let spread = rng.chance(1, 2); // half of the graphs stay in one directory
+    let n = if spread { n } else { n.min(4) }; // one directory holds only f0..f3
+    while files.len() < n {
+        let dir = if spread { DIRS[rng.below(3)] } else { "/w" };
+        let path = format!("{dir}/f{}.td", rng.below(4));
+        if files.iter().all(|f| f.path != path) {
+            files.push(GFile { path, includes: vec![] });
+        }
+    }
+    let include_dir = if rng.chance(1, 2) { Some("/w/inc".to_string()) } else { None };
     let nested_graph = allow_nested && rng.chance(1, 4);
-    let mut edges = Vec::new();
-    for _ in 0..n {
+    let mut counter = 0u32;
+    let mut unreadable = Vec::new();
+    for i in 0..files.len() {
         let deg = [0, 1, 1, 2, 2, 3][rng.below(6)];
-        let mut es = Vec::new();
         for _ in 0..deg {
-            let target = match rng.below(12) {
+            let name = match rng.below(14) {
                 0 => {
-                    missing += 1;
-                    Target::Missing(missing)
+                    counter += 1;
+                    format!("missing{counter}.td")
                 }
                 1 => {
-                    missing += 1;
-                    Target::Unreadable(missing)
+                    counter += 1;
+                    let name = format!("unreadable{counter}.td");
+                    unreadable.push(format!("{}/{}", parent_of(&files[i].path), name));
+                    name
                 }
-                2 if inc_files > 0 => Target::IncDir(rng.below(inc_files)),
-                _ => Target::File(rng.below(n)),
+                2 | 3 if spread => format!("sub/f{}.td", rng.below(4)),
+                4 if spread => format!("inc/f{}.td", rng.below(4)),
+                _ => {
+                    // mostly names of files that exist somewhere, so that most includes resolve
+                    let t = rng.below(files.len());
+                    let p = &files[t].path;
+                    p[p.rfind('/').unwrap() + 1..].to_string()
+                }
             };
-            es.push(Edge { target, nested: nested_graph && rng.chance(1, 2) });
+            files[i].includes.push(GInc { name, nested: nested_graph && rng.chance(1, 2) });
         }
-        edges.push(es);
     }
-    Graph { edges, inc_files, include_dir_set, root: 0 }
+    Graph { files, unreadable, include_dir, root: 0 }
 }
 
 #[derive(Default, Clone, Debug)]
@@ -234,6 +236,7 @@ pub struct C16Stats {
     pub cycles: u64,
     pub self_loops: u64,
     pub diamonds: u64,
+    pub name_collisions: u64,
     pub missing_targets: u64,
     pub unreadable_targets: u64,
     pub include_dir_hits: u64,
@@ -244,39 +247,51 @@ pub struct C16Stats {
 
 pub const C16_READ_BUDGET: u64 = 10_000;
 
-/// Runs the real ide layer on one graph and judges it. Panics inside the analysis are
-/// caught; a stack overflow kills the process (the driver's write-ahead file covers that).
-pub fn check_c16(g: &Graph, stats: &mut C16Stats) -> Vec<Violation> {
-    let mut v = Vec::new();
+pub fn graph_stats(g: &Graph, stats: &mut C16Stats) {
     if g.has_cycle() {
         stats.cycles += 1;
     }
-    if g.edges.iter().enumerate().any(|(i, es)| es.iter().any(|e| e.target == Target::File(i))) {
+    if (0..g.files.len()).any(|i| g.files[i].includes.iter().any(|inc| g.resolve(i, &inc.name) == Some(i))) {
         stats.self_loops += 1;
     }
     if g.has_diamond() {
         stats.diamonds += 1;
     }
-    for es in &g.edges {
-        for e in es {
-            match e.target {
-                Target::Missing(_) => stats.missing_targets += 1,
-                Target::Unreadable(_) => stats.unreadable_targets += 1,
-                Target::IncDir(_) if g.include_dir_set => stats.include_dir_hits += 1,
-                _ => {}
+    if g.has_name_collision() {
+        stats.name_collisions += 1;
+    }
+    for (i, f) in g.files.iter().enumerate() {
+        for inc in &f.includes {
+            if inc.name.starts_with("missing") {
+                stats.missing_targets += 1;
             }
-            if e.nested {
+            if inc.name.starts_with("unreadable") {
+                stats.unreadable_targets += 1;
+            }
+            if let (Some(j), Some(d)) = (g.resolve(i, &inc.name), &g.include_dir) {
+                let own = format!("{}/{}", parent_of(&f.path), inc.name);
+                if g.files[j].path != own && g.files[j].path.starts_with(d.as_str()) {
+                    stats.include_dir_hits += 1;
+                }
+            }
+            if inc.nested {
                 stats.nested_includes += 1;
             }
         }
     }
-    if g.include_dir_set {
-        std::env::set_var("INCLUDE_DIR", "/w/inc");
-    } else {
-        std::env::remove_var("INCLUDE_DIR");
+}
+
+/// Runs the real ide layer on one graph and judges it. Panics inside the analysis are
+/// caught; a stack overflow kills the process (the driver's write-ahead file covers that).
+pub fn check_c16(g: &Graph, stats: &mut C16Stats) -> Vec<Violation> {
+    let mut v = Vec::new();
+    graph_stats(g, stats);
+    match &g.include_dir {
+        Some(d) => std::env::set_var("INCLUDE_DIR", d),
+        None => std::env::remove_var("INCLUDE_DIR"),
     }
-    let files = g.files();
-    let root_path = PathBuf::from(gpath(g.root));
+    let files = g.disk();
+    let root_path = PathBuf::from(&g.files[g.root].path);
     let root_text = files[&root_path].clone();
 
     // (i) termination within the read budget
@@ -309,16 +324,18 @@ pub fn check_c16(g: &Graph, stats: &mut C16Stats) -> Vec<Violation> {
     let judged = std::panic::catch_unwind(std::panic::AssertUnwindSafe(|| {
         let mut v = Vec::new();
         // (ii) exact reachability
-        let expected = g.reachable();
+        let reach = g.reachable();
+        let expected: BTreeSet<String> = reach.iter().map(|i| g.files[*i].path.clone()).collect();
         let got: BTreeSet<String> = host.workspace().into_iter().collect();
         if got != expected {
             v.push(Violation::new("C16", "reachability", format!("workspace {got:?}, reachable {expected:?}")));
         }
-        for (i, es) in g.edges.iter().enumerate() {
-            let p = gpath(i);
-            if !expected.contains(&p) {
+        for &i in &reach {
+            let p = g.files[i].path.clone();
+            if !got.contains(&p) {
                 continue;
             }
+            let es = &g.files[i].includes;
             let (text, spans) = g.render(i);
             let map = crate::refmap::RefMap::new(&text);
             let fmt = |a: usize, b: usize| {
@@ -326,39 +343,35 @@ pub fn check_c16(g: &Graph, stats: &mut C16Stats) -> Vec<Violation> {
                 let (el, ec) = map.position(b);
                 format!("{sl}:{sc}-{el}:{ec}")
             };
-            // (iii) links and not-found diagnostics
+            let nested = es.iter().any(|e| e.nested);
+            // (iii) links ...
             let mut exp_links = Vec::new();
-            let mut exp_notfound = Vec::new();
-            for (e, (st, en, lit, lit_end)) in es.iter().zip(spans.iter()) {
-                match g.resolve(&e.target) {
-                    Some(t) => exp_links.push(format!("{}->{}", fmt(*lit, *lit_end), t)),
-                    None => exp_notfound.push((fmt(*st, *en), g.include_name(&e.target))),
+            for (e, (_, _, lit, lit_end)) in es.iter().zip(spans.iter()) {
+                if let Some(t) = g.resolve(i, &e.name) {
+                    exp_links.push(format!("{}->{}", fmt(*lit, *lit_end), g.files[t].path));
                 }
             }
             exp_links.sort();
             let got_links = host.expected(ReqKind::DocumentLink, &p, 0, true).unwrap_or_default();
             if got_links != exp_links {
-                let nested = es.iter().any(|e| e.nested);
                 let class = if nested { "links-nested-include" } else { "links" };
                 v.push(Violation::new("C16", class, format!("{p}: links {got_links:?}, expected {exp_links:?}")));
             }
-            // one not-found diagnostic per unresolvable statement, in this file, whose range
-            // covers the statement (the node's range may include trailing trivia)
+            // ... and one not-found diagnostic per unresolvable statement, in this file, whose
+            // range covers the statement (the node's range may include trailing trivia)
             let file_diags = host.raw_diagnostics(&p);
             let got_nf: Vec<&(usize, usize, String)> = file_diags.iter().filter(|d| d.2.contains("include file not found")).collect();
-            let nested = es.iter().any(|e| e.nested);
             let class = if nested { "not-found-nested-include" } else { "not-found" };
             let mut unmatched: Vec<&(usize, usize, String)> = got_nf.clone();
             for (e, (st, en, _, _)) in es.iter().zip(spans.iter()) {
-                if g.resolve(&e.target).is_some() {
+                if g.resolve(i, &e.name).is_some() {
                     continue;
                 }
-                let name = g.include_name(&e.target);
-                match unmatched.iter().position(|d| d.0 <= *st && d.1 >= *en && d.2.contains(&name)) {
-                    Some(i) => {
-                        unmatched.remove(i);
+                match unmatched.iter().position(|d| d.0 <= *st && d.1 >= *en && d.2.contains(&e.name)) {
+                    Some(k) => {
+                        unmatched.remove(k);
                     }
-                    None => v.push(Violation::new("C16", class, format!("{p}: no not-found diagnostic covers `include \"{name}\"` at {st}..{en}; got {got_nf:?}"))),
+                    None => v.push(Violation::new("C16", class, format!("{p}: no not-found diagnostic covers `include \"{}\"` at {st}..{en}; got {got_nf:?}", e.name))),
                 }
             }
             if !unmatched.is_empty() {
@@ -472,6 +485,26 @@ pub fn gen_hist(rng: &mut Rng) -> HistScenario {
     }
     let mut present: BTreeSet<String> = disk0.keys().cloned().collect();
     let mut ops = Vec::new();
+    // every text a file ever had: an edit or a disk write sometimes brings an earlier text back
+    // (undo, `git checkout`) or repeats the current one
+    let mut history: BTreeMap<String, Vec<TextSpec>> = BTreeMap::new();
+    for (k, s) in &specs {
+        history.entry(k.clone()).or_default().push(s.clone());
+    }
+    fn next_text(rng: &mut Rng, vs: &mut Versions, specs: &mut BTreeMap<String, TextSpec>, history: &mut BTreeMap<String, Vec<TextSpec>>, k: &str, incl: &[&str], cfg: &GenCfg) -> String {
+        let prev = specs[k].clone();
+        let roll = rng.below(8);
+        let spec = if roll == 0 {
+            prev
+        } else if roll <= 2 {
+            rng.pick(&history[k]).clone()
+        } else {
+            gen::edit_text(rng, vs, &prev, incl, cfg)
+        };
+        history.entry(k.to_string()).or_default().push(spec.clone());
+        specs.insert(k.to_string(), spec.clone());
+        spec.render()
+    }
     let n_ops = rng.range(3, 15);
     let mut root: Option<String> = None;
     while ops.len() < n_ops {
@@ -481,9 +514,7 @@ pub fn gen_hist(rng: &mut Rng) -> HistScenario {
         let incl_ref: Vec<&str> = incl.iter().map(|s| s.as_str()).collect();
         let roll = rng.below(10);
         if root.is_none() || roll < 4 {
-            let spec = gen::edit_text(rng, &mut vs, &specs[k].clone(), &incl_ref, &cfg);
-            let text = spec.render();
-            specs.insert(k.to_string(), spec);
+            let text = next_text(rng, &mut vs, &mut specs, &mut history, k, &incl_ref, &cfg);
             present.insert(path.clone());
             root = Some(path.clone());
             ops.push(HistOp::Edit { path, text });
@@ -507,9 +538,7 @@ pub fn gen_hist(rng: &mut Rng) -> HistScenario {
                     ops.push(HistOp::DiskUnreadable { path });
                 }
                 _ => {
-                    let spec = gen::edit_text(rng, &mut vs, &specs[k].clone(), &incl_ref, &cfg);
-                    let text = spec.render();
-                    specs.insert(k.to_string(), spec);
+                    let text = next_text(rng, &mut vs, &mut specs, &mut history, k, &incl_ref, &cfg);
                     present.insert(path.clone());
                     ops.push(HistOp::DiskWrite { path, text });
                 }
@@ -527,9 +556,7 @@ pub fn gen_hist(rng: &mut Rng) -> HistScenario {
                 let k2 = gen::key_for(&p);
                 let incl2 = inc(&keys, &k2);
                 let incl2_ref: Vec<&str> = incl2.iter().map(|s| s.as_str()).collect();
-                let spec = gen::edit_text(rng, &mut vs, &specs[&k2].clone(), &incl2_ref, &cfg);
-                let text = spec.render();
-                specs.insert(k2, spec);
+                let text = next_text(rng, &mut vs, &mut specs, &mut history, &k2, &incl2_ref, &cfg);
                 ops.push(HistOp::Edit { path: p, text });
             }
         }
